@@ -309,6 +309,20 @@ def r_spawn_site(e, R):
             R.check(bool(starts) and all(any(g.dominates(s, i) for s in starts) for i in insn), "R-SPAWN-SITE",
                     f"{sf.short}: the worker is registered after start() (pid known, sentinel valid)", sf.short, "p.start()",
                     "a worker is registered before it was started", e.loc(sf, n))
+            # hand-shake token: the exit lock is taken before the worker starts and attached to the process object
+            # before the process is published in the table (the manager releases `p.<lock attr>` on the exit announcement)
+            acq = [cn for cn in g.nodes for c in calls_in(cn) if e.receiver_objs(sf, c, ("acquire",)) & a.exit_locks]
+            R.check(bool(acq) and all(any(g.dominates(x, s) for x in acq) for s in starts), "R-SPAWN-SITE",
+                    f"{sf.short}: the worker's exit lock is taken before the worker is started", sf.short, "worker_exit_lock.acquire() before p.start()",
+                    "the worker starts with its exit lock free: on a timeout exit it does not wait for the manager's acknowledgement, its sentinel "
+                    "can be seen while it is still registered and the pool is flagged broken", e.loc(sf, n))
+            att = [cn for cn in g.nodes if cn.kind == "stmt" and isinstance(cn.ast, ast.Assign) and isinstance(cn.ast.targets[0], ast.Attribute)
+                   and e.objs(sf, cn.ast.targets[0].value) & a.process_objs and e.objs(sf, cn.ast.value) & a.exit_locks]
+            R.check(bool(att) and all(any(g.dominates(x, i) for x in att) for i in insn), "R-SPAWN-SITE",
+                    f"{sf.short}: the exit lock is attached to the process object before the process is published in the table", sf.short,
+                    "p._worker_exit_lock = worker_exit_lock before processes[pid] = p",
+                    "the manager can process the exit announcement of a worker whose exit lock is not attached yet (AttributeError kills the "
+                    "manager thread)", e.loc(sf, n))
             # the key is the pid of the started process and the value that process
             key = n.slice if isinstance(n, ast.Subscript) else None
             okk = isinstance(key, ast.Attribute) and key.attr == "pid" and e.objs(sf, key.value) & a.process_objs
